@@ -30,8 +30,8 @@ pub mod utils {
 //@ret r
 //@spec
     ensures r == lex_spec(*p, *q),
-//@before 1 `p.x.partial_cmp(&q.x)`
-    proof { T::ax_obeys(); T::ax_cmp(p.x, q.x); T::ax_cmp(p.y, q.y); }
+//@entry
+        proof { T::ax_obeys(); T::ax_order(); }
 //@end
 }
 
@@ -59,8 +59,8 @@ impl<F: GeoFloat> EqLike for NodeKey<F> {
 //@ret r
 //@spec
         ensures r == ceq(key_coord(*self), key_coord(*other)),
-//@before 1 `self.0 == other.0`
-        proof { F::ax_obeys(); F::ax_cmp(self.0.x, other.0.x); F::ax_cmp(self.0.y, other.0.y); }
+//@entry
+        proof { F::ax_obeys(); F::ax_order(); }
 //@end
 }
 
